@@ -98,7 +98,7 @@ PLAN = dict(
     explanation="Wrapper x trait-method matrix. The method lists of trait Collect, trait Subscribe and trait Filter are extracted from /repo on every run; for every (wrapper, method) one loop-free harness calls the method on the real wrapper around a recording stub and requires: the same method of the wrapped value is called exactly once and nothing else is, with the identical argument (pointer / id), and the symbolic result comes back unchanged. Wrappers: Box<C>, Arc<C>, Box<dyn Collect> (Collect); Box<S>, Box<dyn Subscribe>, Some, one-element Vec, reload::Subscriber, None / empty Vec / Identity ('as if absent'), two-element Vec (bounded), Layered of two layers (both once, inner before outer) (Subscribe); Box<dyn>, Arc<dyn>, Some, reload, None (Filter); Layered<layer, collector> as a Collect: collector before layer, veto semantics, on_close only after the collector closed. A trait method without a cell does not compile (=> undecided), so a method added later cannot be silently unforwarded.",
     functions_under_contract=['tracing-core/src/collect.rs: impl Collect for Box<C>, Arc<C>', 'tracing-subscriber/src/subscribe/mod.rs: impl Subscribe for Option<S>, Box<S>, Box<dyn Subscribe>, Vec<S>, Identity (subscriber_impl_body!)', 'subscribe/layered.rs: impl Collect for Layered, impl Subscribe for Layered', 'reload.rs: impl Subscribe / Filter for reload::Subscriber', 'filter/subscriber_filters/mod.rs: filter_impl_body! (Box/Arc dyn Filter), impl Filter for Option<F>'],
     trusted_base=["Kani 0.68 / CBMC 6.11 / CaDiCaL; Kani's std build (nightly-2026-08-21), not the repo toolchain's", 'core::fmt::Formatter::pad stubbed to Ok(()) with -Z stubbing (panic-message formatting on infeasible error branches; no harness that uses it reads formatted text)', 'Pool::clear stub (Layered::try_close mentions Registry)'],
-    assumptions=["ordering clause read as applying to span/event notifications; register_callsite / on_register_dispatch / on_subscribe only 'exactly once' (the code is outer-first there by construction)", 'downcast_raw is type introspection, not a notification: it may be called additionally (Layered::try_close looks for a Registry)', 'reload::Subscriber refuses downcasts by design (documented), so that cell is excluded'],
+    assumptions=["the lift from the per-node cells to stacks of any shape and depth (every layer exactly once; as many notifications of each kind as occurred) is mechanised in Verus (lemma_c09.verus.rs) over node facts that are exactly the cells: wrapper forwards once, pair forwards once to each part", "ordering clause read as applying to span/event notifications; register_callsite / on_register_dispatch / on_subscribe only 'exactly once' (the code is outer-first there by construction)", 'downcast_raw is type introspection, not a notification: it may be called additionally (Layered::try_close looks for a Registry)', 'reload::Subscriber refuses downcasts by design (documented), so that cell is excluded'],
     not_covered=["fmt::Collector (wraps the real Registry, out of Kani's reach) - its missing on_register_dispatch forwarding was repaired together with Layered's", 'Arc<S> as Subscribe does not exist in this tree'],
     verus=[dict(name="counting", builder="build_counting", obligations=["absent_gets_nothing", "every_layer_exactly_once", "history_counts"])],
     kani=[dict(
